@@ -52,6 +52,9 @@ type Case struct {
 	FailMode        string          `json:"fail_mode,omitempty"` // error | abort
 	Stall           []string        `json:"stall,omitempty"`     // instance paths that finish only when nothing else can run
 	CancelAfter     int             `json:"cancel_after,omitempty"` // >0: a canceller task cancels the context after that many of its own steps
+	// UpdatePark: probability that the controller parks in Config.UpdateFunc (an existing callback seam,
+	// called after every folded result): meanwhile several runners can finish and queue their results.
+	UpdatePark float64 `json:"update_park,omitempty"`
 }
 
 func (c *Case) SchedCfg() *sim.SchedConfig { return &c.Sched }
@@ -140,6 +143,11 @@ func (c *Case) Shrinks() []sim.CaseI {
 	if c.CancelAfter > 0 {
 		d := c.clone()
 		d.CancelAfter = 0
+		out = append(out, d)
+	}
+	if c.UpdatePark > 0 {
+		d := c.clone()
+		d.UpdatePark = 0
 		out = append(out, d)
 	}
 	for i := range c.Stall {
@@ -305,6 +313,7 @@ func gen(seed uint64, tier string, idx int) sim.CaseI {
 	}
 	m := buildModel(c)
 	// knobs
+	c.UpdatePark = []float64{0, 0, 0.3, 1}[kr.Intn(4)]
 	c.Sched = sim.SchedConfig{Seed: sim.Mix(seed, 3)}
 	switch kr.Intn(10) {
 	case 0:
@@ -666,6 +675,9 @@ type harness struct {
 	maxRun int
 
 	finalOut map[string]string
+
+	inUpdate        bool
+	cancelMidUpdate bool
 }
 
 func (h *harness) record(e event) {
@@ -764,6 +776,7 @@ func exec(t *testing.T, ci sim.CaseI, choices []uint32, keepLog bool) *sim.Outco
 	returned := false
 	res := sim.RunBubble(t, s, func() {
 		ctx, cancel := context.WithCancel(context.Background())
+		_ = cancel
 		s.Go("controller", 0, func() {
 			defer func() {
 				if p := recover(); p != nil {
@@ -775,6 +788,16 @@ func exec(t *testing.T, ci sim.CaseI, choices []uint32, keepLog bool) *sim.Outco
 				sim.Trouble("generated program does not compile: %v\n%s", v.Err(), src)
 			}
 			fc := &flow.Config{Root: cue.ParsePath("root"), IgnoreConcrete: c.IgnoreConcrete, InferTasks: c.InferTasks, FindHiddenTasks: c.FindHiddenTasks}
+			if c.UpdatePark > 0 {
+				fc.UpdateFunc = func(_ *flow.Controller, t *flow.Task) error {
+					if t != nil && s.Coin(c.UpdatePark) {
+						h.inUpdate = true
+						s.Park(sim.KYield, "UpdateFunc", t.Path().String()+" ")
+						h.inUpdate = false
+					}
+					return nil
+				}
+			}
 			ctl := flow.New(fc, v, func(v cue.Value) (flow.Runner, error) {
 				if id, err := v.LookupPath(cue.ParsePath("$id")).String(); err == nil && id == "sim" {
 					return runner{h}, nil
@@ -803,6 +826,9 @@ func exec(t *testing.T, ci sim.CaseI, choices []uint32, keepLog bool) *sim.Outco
 					s.Park(sim.KClient, "canceller", "")
 				}
 				h.faults["cancel"]++
+				// a cancellation that arrives while the controller is busy folding a result in (parked in
+				// UpdateFunc) cannot stop the dispatch pass that is under way
+				h.cancelMidUpdate = h.inUpdate
 				h.record(event{kind: "cancel"})
 				cancel()
 			})
@@ -887,7 +913,7 @@ func judge(c *Case, m *model, h *harness, runErr error, final []byte, finalErr e
 		// A cancellation that arrives while Run is waiting for results ends the run: nothing is
 		// dispatched afterwards. (Cancelled before Run began, the controller still dispatches the
 		// tasks that are ready, which the statement does not forbid: they are nobody's dependants.)
-		if cancelSeq != 0 && beginSeq != 0 && cancelSeq > beginSeq && e.seq > cancelSeq {
+		if cancelSeq != 0 && beginSeq != 0 && cancelSeq > beginSeq && e.seq > cancelSeq && !h.cancelMidUpdate {
 			return viol("start-after-cancel", "task %s started after the context was cancelled", e.path)
 		}
 		for p := range in.must {
